@@ -123,7 +123,10 @@ pub(super) fn decrypt_packet_body(
 
     if crypto_update {
         // Validate incoming key update
-        if number <= rx_packet || prev_crypto.is_some_and(|x| x.update_unacked) {
+        // `rx_packet` is 0 both when packet 0 was received and when nothing was received yet; only
+        // the former makes a key update carried by packet 0 illegitimate.
+        let not_newer = number <= rx_packet && !spaces[space].dedup.is_empty();
+        if not_newer || prev_crypto.is_some_and(|x| x.update_unacked) {
             return Err(Some(TransportError::KEY_UPDATE_ERROR("")));
         }
     }
